@@ -60,9 +60,14 @@ Proof.
   { intros es H. destruct (nocat_pres es s H) as [A [B C]]. unfold Cb. rewrite A, B, C. repeat split; auto. }
   destruct o; cbn [events created flat_map app].
   - (* OCreate *)
-    cbn [cat_save app run_evs fold_left apply_ev]. sproj.
-    repeat (match goal with |- context [if ?c then _ else _] => destruct c end; sproj);
-      (repeat split; [reflexivity | reflexivity | intros t0 H; apply In_add_z; auto | intros t0 [<- | []]; apply In_add_z; auto]).
+    set (P := [ECreate t; EStore t 0 h; EMsync t; EGrow t; EStore t 1 r; ECreate (idx_file t); EStore (idx_file t) 0 hi;
+               EMsync (idx_file t); EGrow (idx_file t); EStore (idx_file t) 1 ri]).
+    change (ECreate t :: EStore t 0 h :: EMsync t :: EGrow t :: EStore t 1 r :: ECreate (idx_file t) :: EStore (idx_file t) 0 hi
+            :: EMsync (idx_file t) :: EGrow (idx_file t) :: EStore (idx_file t) 1 ri :: EAddTab t :: cat_save ++ [EMetaW; EMetaSync; EAck])
+      with (P ++ (EAddTab t :: cat_save ++ [EMetaW; EMetaSync; EAck])).
+    rewrite run_evs_app. destruct (nocat_pres P s eq_refl) as [A1 [A2 A3]]. set (s1 := run_evs s P) in *.
+    unfold run_evs, Cb. cbn [cat_save app fold_left apply_ev]. sproj. rewrite A1.
+    repeat split; [intros t0 H; apply In_add_z; auto | intros t0 [<- | []]; apply In_add_z; auto].
   - destruct (NC (events s (ODml t marks body post))) as [X Y]; [| repeat split; [apply X | apply X | exact Y | intros t0 []]].
     cbn [events]. rewrite !forallb_app, !nocat_map; try reflexivity; try (intros []; reflexivity).
     destruct (in_txn s); [reflexivity | rewrite nocat_flush; reflexivity].
@@ -109,7 +114,9 @@ Proof.
   assert (B0 : Cb init) by (split; reflexivity).
   destruct (run_cb (firstn i os) init B0) as [[B1 B2] TT].
   assert (C0 : Ccat (run init (firstn i os)) (tabs (run init (firstn i os)))).
-  { repeat split; intros; auto; try congruence. rewrite B1 in H0. inversion H0. subst. exact H1. }
+  { unfold Ccat. split; [auto |]. split.
+    - intros ts E t0 Ht. rewrite B1 in E. inversion E. subst. exact Ht.
+    - intros t0 Ht. rewrite B2. exact Ht. }
   assert (CP : Ccat (at_pos os i n) (tabs (run init (firstn i os)))).
   { unfold at_pos. destruct (nth_error os i); [apply cat_evs; exact C0 | exact C0]. }
   destruct CP as [_ [P2 P3]]. assert (Tin : In t (tabs (run init (firstn i os)))) by (apply TT; right; exact H).
